@@ -151,6 +151,19 @@ def integerTypes : List String :=
   ["Integer", "Long", "Int", "Short", "Byte", "NonPositiveInteger", "NegativeInteger", "NonNegativeInteger", "PositiveInteger",
    "UnsignedLong", "UnsignedInt", "UnsignedShort", "UnsignedByte"]
 
+/-- AASd-020 and its siblings: a stored value is consistent with the slot's XSD value type.
+    (`bool` under `xs:integer` is a neutral zone of DESIGN §7.3 and counted as consistent.) -/
+def Conforms (v : PyVal) (t : String) : Prop :=
+  match v with
+  | .int n => t ∈ integerTypes ∧ InXsdRange t n
+  | .bool _ => t = "Boolean" ∨ t = "Integer"
+  | .float => t = "Float" ∨ t = "Double"
+  | .str ctl => t = "String" ∨ t = "AnyURI" ∨ (t = "NormalizedString" ∧ ctl = false)
+  | .bytes => t = "Base64Binary" ∨ t = "HexBinary"
+  | .date => t = "Date"
+  | .datetime => t = "DateTime"
+  | .other => False
+
 /-! ## Cross-attribute rules -/
 
 /-- AASd-005: no version ⇒ no revision. -/
